@@ -99,6 +99,13 @@ def build(d, buffers=None):
         arr = numpy_physical(d)
         if buffers is not None:
             buffers.append(arr.base if arr.base is not None else arr)
+        phys = d.get("phys") or {}
+        if phys.get("via") == "getitem" and phys.get("view") and arr.base is not None and params is None:
+            # the same window taken by the library's own range slicing of the larger array (a[1:, 1:4]): unlike a NumPy view handed in
+            # directly, such a NumpyArray has a non-zero byte offset into its buffer
+            v = phys["view"]
+            window = tuple(slice(v["pre"][i], v["pre"][i] + v["step"][i] * arr.shape[i], v["step"][i]) for i in range(arr.ndim))
+            return L.NumpyArray(arr.base)[window]
         return L.NumpyArray(arr, parameters=params)
     if cls == "EmptyArray":
         return L.EmptyArray(parameters=params)
